@@ -1,7 +1,18 @@
 package mon
 
-import "encoding/base64"
+import (
+	"encoding/base64"
+	"os"
+)
 
 func b64(b []byte) string { return base64.StdEncoding.EncodeToString(b) }
 
 func unb64(s string) ([]byte, error) { return base64.StdEncoding.DecodeString(s) }
+
+// VerifDir is the root of the verification tree (set by the driver).
+func VerifDir() string {
+	if d := os.Getenv("VERIF_DIR"); d != "" {
+		return d
+	}
+	return "/verif"
+}
